@@ -319,9 +319,14 @@ def step (c : Ctx) (g : G) : Rec → Verdict
             -- … and consumers may still be running (D11): the per-thread objects they have created so far are
             -- already in the factory's list.  Alternative: everything the running tasks create is visible.
             let allRunning : Insts := g.running.foldl (fun acc x => mergeInsts acc x.instsAtStart x.out.eff.insts) g.insts
+            -- finer: exactly the objects whose creating unit has already returned in what was observed so far
+            let soFar : Insts := g.running.foldl (fun acc x =>
+              let made := (x.out.ptLog.filter (fun p => p.1 ≤ x.consumed.length)).map (·.2)
+              { acc with ptObjects := acc.ptObjects ++ made.filter (fun o => !acc.ptObjects.contains o) }) g.insts
             let altKept : List (List Td × Insts) :=
               if g.defF.interrupted && (setupOf tid).isSome then
-                altKept0 ++ [(kept, allRunning)] ++ altKept0.map (fun ki => (ki.1, mergeInsts allRunning g.insts ki.2))
+                [(kept, soFar)] ++ altKept0 ++ [(kept, allRunning)] ++
+                  altKept0.map (fun ki => (ki.1, mergeInsts allRunning g.insts ki.2))
               else altKept0
             let out := runTask c.P g.insts w tid run reason kept none
             let r : Running :=
@@ -340,7 +345,10 @@ def step (c : Ctx) (g : G) : Rec → Verdict
         if !ru0.expected.isEmpty && g.defF.interrupted then
           match findExact c ru0 80 with
           | some (k, ki, out) => { ru0 with cut := k, kept := ki.1, instsAtStart := ki.2, out := out, expected := [] }
-          | none => ru0
+          | none =>
+            -- D11: after an interrupt the teardown tasks run while tests are in flight; a fixture lookup of an
+            -- in-flight task then finds the result deleted (AssertionError outside any guard) and the task dies
+            if r == .exception then { ru0 with expected := [], out := { ru0.out with res := .exception } } else ru0
         else ru0
       if !ru.expected.isEmpty then
         .reject s!"finish {t}: task finished but the model still expects {describeItem (ru.expected.headD default)}"
